@@ -12,6 +12,7 @@ package zkprm
 
 //@ func (*Proof).Verify
 //@   use bits
+//@   use absorb
 //@   nopanic[C05]
 //@   modifies hstate(hash), wlog(hash.h)
 //@   requires pedok(public.Aux) && hash != nil && hash.h != nil
@@ -24,10 +25,14 @@ package zkprm
 //@   use absorb
 //@   ensures[C10] result1 == nil ==> absorbed(hstate(hash), habs(iface(public.Aux)))
 
-// ---- prover (generated by tools/gen_zk_prover_contracts.py) ----
+// ---- prover (hand-written: the pool workers fill the two tables index by index)
+//@ func NewProof$1
+//@   ensures as[i] != nil && As[i] != nil
+//@   ensures fresh(as[i])
 //@ func NewProof
 //@   use bits
-// (not verified: the per-index results of the pool workers are not modelled -- A-PAR; assumed not to panic for present inputs)
+//@   use absorb
+//@   nopanic[C05]
 //@   requires private.Lambda != nil && private.Phi != nil && private.P != nil && private.Q != nil && hash != nil && hash.h != nil && pedok(public.Aux)
 //@   modifies hstate(hash), wlog(hash.h)
 //@   allocates
